@@ -97,9 +97,10 @@ Print Assumptions read_all_promote.
 (* ---- writing side ------------------------------------------------------ *)
 
 (* For all operation sequences at the bufio boundary and every fault: if the
-   sink has failed, a raw Seek/Write of Placeholder.Set has returned the sink's
+   sink has failed, a raw call on the sink (the Seek/Write of Placeholder.Set,
+   the Seek/Read/ReadAt of a Writer.Get read-back) has returned the sink's
    error, or the next operation that goes through the bufio.Writer (any Write,
-   the Flush of Close) returns it. *)
+   the Flush of Writer.Get, the Flush of Close) returns it. *)
 Theorem sink_surfaces :
   forall (f : fault) (ops : list sop) (op : sop),
     is_buffered_report op = true ->
@@ -149,6 +150,12 @@ Proof. exact seq_trailer_refuted_lemma. Qed.
 
 Example chain_stacks : chain_outcomes 3 OnlyK = [OIO; OIO; OIO] /\ chain_outcomes 4 FromK = [OIO; OIO; OIO; OIO].
 Proof. exact chain_examples. Qed.
+
+Example sink_program_with_read_back :
+  length (sink_calls sink_example_readback) = 11%nat /\
+  forallb (fun b => b) (surface_verdicts sink_example_readback OnlyK) = true /\
+  forallb (fun b => b) (surface_verdicts sink_example_readback FromK) = true.
+Proof. exact sink_example_readback_ok. Qed.
 
 Example sink_program :
   length (sink_calls sink_example) = 9%nat /\
